@@ -106,7 +106,7 @@ FUNCTIONS = {
              # cancelling never affects any other action, nor the queue
              'forall_ref(e, TimerEntry, implies(e != timeout_args, e.cancelled == old(e.cancelled) and e.action == old(e.action)), e.cancelled)'],
     modifies=['TimerEntry.cancelled', 'TimerEntry.action'],
-    props=['C10'],
+    props=['C10', 'C01'],
   ),
 }
 
